@@ -1,2 +1,5 @@
 import ZbossModel.Props.C14
-#print axioms Zboss.Host.C14_placeholder
+#print axioms Zboss.Host.C14_exclusive
+#print axioms Zboss.Host.C14_transmit_is_afterB
+#print axioms Zboss.Host.C14_fifo
+#print axioms Zboss.Host.C14_nonblocking_free
